@@ -558,6 +558,7 @@ class LimitRuleRun(Harness):
         out = [{"targets": t, "where": w, "n1": 1, "active": [1, 1], "acts": ["limit"]}
                for t in (["M0"], ["M1"], ["M0", "M1"]) for w in (0, 1)]
         out.append({"targets": ["M0"], "where": 0, "n1": 1, "active": [0, 0], "acts": ["limit"]})
+        out.append({"targets": ["M0", "M1"], "where": 0, "n1": 1, "active": [1, 1], "acts": ["limit"], "rule_first": True})
         out.append({"targets": ["M0"], "where": 0, "n1": 1, "active": [1, 1], "acts": ["limit", "market"]})
         out.append({"targets": ["M0"], "where": 0, "n1": 1, "active": [0, 1], "acts": ["limit"], "only_m0": True})
         if tier == "thorough":
@@ -569,7 +570,10 @@ class LimitRuleRun(Harness):
         markets = {f"M{i}": {"class": "Market", "tickSize": 1, "marketPrice": 300 + 100 * i} for i in range(2)}
         sessions = [rn.session(0, 1, True, True, maxNormalOrders=2), rn.session(1, case["n1"], True, True, maxNormalOrders=2)]
         sessions[0]["events"] = ["PROBE"]
-        sessions[case["where"]].setdefault("events", []).append("RULE")
+        if case.get("rule_first"):
+            sessions[0]["events"] = ["RULE", "PROBE"]      # the rule is not the last configured event
+        else:
+            sessions[case["where"]].setdefault("events", []).append("RULE")
         st = rn.base_settings(n_agents=2, sessions=sessions, markets=markets,
                               extra={"RULE": {"class": "PriceLimitRule", "targetMarkets": case["targets"],
                                               "triggerChangeRate": 0.5}, "PROBE": {"class": "ProbeAll"}})
